@@ -83,23 +83,6 @@ theorem C07_driver_needs_no_active (s : Sys) (e : Ev) (o : Send) (ho : o ∈ (s.
   · rw [h.1] at hk; cases hk
   · rw [h.1] at hk; cases hk
 
-private theorem no_drv_in_reconnects (now : Nat) (rcs : List Nat) (s : Sys) (o : Send)
-    (ho : o ∈ (s.run (rcs.map fun i => Ev.reconnect i now)).2) : o.kind ≠ .reg1Drv := by
-  induction rcs generalizing s with
-  | nil => simp [Sys.run] at ho
-  | cons i is ih =>
-    simp only [List.map_cons, Sys.run, List.mem_append] at ho
-    rcases ho with h | h
-    · intro hk
-      have := (C07_driver_needs_no_active s _ o h hk).1
-      simp [Ev.IsDriver] at this
-    · exact ih _ h
-
-private theorem step_clear_nosend (s : Sys) (now : Nat) : (s.step (.clearTimeout now)).2 = [] := rfl
-
-private theorem step_probeCheck_nosend (s : Sys) (now : Nat) : (s.step (.probeCheck now)).2 = [] := by
-  simp only [Sys.step]; split <;> rfl
-
 /-- In a real housekeeping pass (`tickEvs`: clear timed-out pending, probing completion, reconnect
 branch for the links `rcs`, `update_active_connections`, driver) a driver REG1 is emitted only if
 no uplink at all is connected (registered by REG3) at that moment. -/
